@@ -5,14 +5,14 @@
 V="$(cd "$(dirname "$0")/.." && pwd)"
 WT=/tmp/wt_selftest_$$
 git -C /repo worktree add --detach $WT HEAD -f >/dev/null 2>&1 || exit 2
-RUNS="${RUNS:-4000}"
+RUNS="${RUNS:-}"
 fail=0
 for d in $V/selftest/sensitivity/*.diff; do
   name=$(basename $d .diff)
   checks=$(echo $name | grep -o '^\(C[0-9][0-9]_\)*' | tr '_' ' ')
   git -C $WT checkout -q -- . && git -C $WT apply $d || { echo "APPLY-FAILED $name"; fail=1; continue; }
   for c in $checks; do
-    out=$(python3 $V/checks/run_check.py $c quick --runs $RUNS --repo $WT 2>&1); rc=$?
+    out=$(python3 $V/checks/run_check.py $c quick ${RUNS:+--runs $RUNS} --repo $WT 2>&1); rc=$?
     cls=$(echo "$out" | grep "  class:" | head -2 | tr '\n' ' ')
     if [ $rc -eq 1 ]; then echo "SENSITIVITY ok    $name -> $c: $cls"; else echo "SENSITIVITY MISSED $name -> $c (exit $rc)"; fail=1; fi
   done
@@ -21,7 +21,7 @@ for d in $V/selftest/specificity/*.diff; do
   name=$(basename $d .diff)
   git -C $WT checkout -q -- . && git -C $WT apply $d || { echo "APPLY-FAILED $name"; fail=1; continue; }
   for c in C12 C15 C18; do
-    out=$(python3 $V/checks/run_check.py $c quick --runs $RUNS --repo $WT 2>&1); rc=$?
+    out=$(python3 $V/checks/run_check.py $c quick ${RUNS:+--runs $RUNS} --repo $WT 2>&1); rc=$?
     if [ $rc -eq 0 ]; then echo "SPECIFICITY ok    $name -> $c silent ($(echo "$out" | tail -1 | cut -c1-80))"; else echo "SPECIFICITY FALSE-ALARM $name -> $c (exit $rc): $(echo "$out" | grep -E 'class:|MACHINERY' | head -3)"; fail=1; fi
   done
 done
